@@ -33,8 +33,11 @@ FAMS = {
     "alg": ("AlgDistribution", [("a", "pos", 0.3, 5.0)]),
 }
 FAM_NAMES = sorted(FAMS)
-# families whose ppf is a numerical root search (absolute x accuracy instead of a relative one)
+# families whose ppf is a numerical root search (absolute x accuracy instead of a relative one) and whose cdf is
+# computed as 0.5 + series, i.e. with ABSOLUTE accuracy ~1e-16 also in the lower tail (p ~ 1e-10 then carries a
+# relative error ~1e-6: numerical saturation of the engine, not of virocon)
 ABS_X_ERR = {"vonmises": 5e-14}
+ABS_P_ERR = {"vonmises": 2e-15}
 
 
 class AlgDistribution:
@@ -416,7 +419,7 @@ def back_map(model, spec, coords, rec=None):
             u0 = real_sts.norm.ppf(p0)
             up = real_sts.norm.ppf(f(x + h) * np.ones(n))
             um = real_sts.norm.ppf(f(x - h) * np.ones(n))
-            dp = 4 * np.spacing(p0) / np.maximum(real_sts.norm.pdf(u0), 1e-300)
+            dp = (4 * np.spacing(p0) + ABS_P_ERR.get(spec["dims"][i]["fam"], 0.0)) / np.maximum(real_sts.norm.pdf(u0), 1e-300)
             pp[:, i], uu[:, i] = p0, u0
             du[:, i] = np.maximum(np.abs(up - u0), np.abs(um - u0)) + dp
     if rec is not None:
@@ -441,13 +444,13 @@ def oracle(spec, model, contour, rec=None, stats=None):
         return ({"contour": cls, "clause": "count"}, "coordinates have shape %r, expected (%d, %d)" % (coords.shape, n, nd))
     if not np.all(np.isfinite(coords)):
         return ({"contour": cls, "clause": "finite"}, "coordinates contain non-finite values")
+    pp, uu, du = back_map(model, spec, coords, rec)
+    stats["pp"] = pp
     b_want = expected_beta(spec)
     b = float(contour.beta)
     if not abs(b - b_want) <= 1e-12 * max(abs(b_want), 1.0):
         what = "Phi^-1(1-alpha)" if cls == "iform" else "sqrt(chi2_%d^-1(1-alpha))" % nd
         return ({"contour": cls, "clause": "beta"}, "beta = %r but %s = %r (alpha = %r)" % (b, what, b_want, spec["alpha"]))
-    pp, uu, du = back_map(model, spec, coords, rec)
-    stats["pp"] = pp
     scale = max(b_want, 1.0)
     dsum = du.sum(axis=1)
     judge = np.isfinite(uu).all(axis=1) & np.isfinite(dsum) & (dsum <= 1e-3 * scale)
@@ -521,7 +524,13 @@ def run_spec(spec, rec=None):
 
 
 def replay(ctx, spec):
-    _, _, o, _ = run_spec(spec)
+    """True = the property fails on this input (a contour specification, or {"nsphere": [dim, n]})"""
+    if "nsphere" in spec:
+        dim, n = spec["nsphere"]
+        s, _ = nsphere_trace(dim, n)
+        o = nsphere_oracle(dim, n, s)
+    else:
+        _, _, o, _ = run_spec(spec)
     if o:
         print("  ", o[1])
     return o is not None
@@ -536,17 +545,25 @@ def shrink(spec, clause):
         return o is not None and o[0].get("clause") == clause
     cur = spec
     changed = True
-    while changed:
+    rounds = 0
+    while changed and rounds < 25:
+        rounds += 1
         changed = False
         cands = []
-        if len(cur["dims"]) > 2:
-            cands.append(dict(cur, dims=cur["dims"][:-1]))
+        if len(cur["dims"]) > 2:   # drop a variable nobody is conditional on (re-index the later conditional_on entries)
+            for j in range(len(cur["dims"]) - 1, 0, -1):
+                if all(d["cond"] != j for d in cur["dims"]):
+                    rest = [dict(d, cond=(d["cond"] - 1 if d["cond"] is not None and d["cond"] > j else d["cond"]))
+                            for k2, d in enumerate(cur["dims"]) if k2 != j]
+                    cands.append(dict(cur, dims=rest))
         for npnt in (3, 4, 8):
             if cur["n_points"] > npnt:
                 cands.append(dict(cur, n_points=npnt))
-        for a in (0.1, 0.01, float("%.2g" % cur["alpha"])):
-            if a != cur["alpha"]:
+        if cur["alpha"] not in (0.1, 0.01):   # one step only (a strictly decreasing measure keeps the loop finite)
+            for a in (0.1, 0.01):
                 cands.append(dict(cur, alpha=a))
+            if float("%.2g" % cur["alpha"]) != cur["alpha"]:
+                cands.append(dict(cur, alpha=float("%.2g" % cur["alpha"])))
         for i, d in enumerate(cur["dims"]):
             for nm, v in d["par"].items():
                 if isinstance(v, dict) and sum(isinstance(w, dict) for w in d["par"].values()) > 1:
@@ -838,17 +855,3 @@ def run(ctx):
                         "icdf of the first variable non-decreasing; forces oracle preserves the shape of the state; no all-zero normal draw",
                         "binary64 rounding against the reals is not bounded by a theorem (validated by the property oracle's tail-aware tolerance)",
                         "distinctness of the NSphere directions (n_dim >= 3) is validated numerically only"]
-
-
-def replay_nsphere(dim, n):
-    s, _ = nsphere_trace(dim, n)
-    return nsphere_oracle(dim, n, s) is not None
-
-
-_replay_contour = replay
-
-
-def replay(ctx, spec):  # noqa: F811
-    if "nsphere" in spec:
-        return replay_nsphere(*spec["nsphere"])
-    return _replay_contour(ctx, spec)
